@@ -30,7 +30,7 @@
 
 # external _imports
 import time
-from typing import Union, Dict, Iterator, Optional, List, Tuple
+from typing import Iterable, Union, Dict, Iterator, Optional, List, Tuple
 from warnings import filterwarnings
 import re as _re
 from networkx import MultiDiGraph, DiGraph, topological_sort
@@ -1534,7 +1534,8 @@ class CircuitIR(AbstractBaseIR):
 
                     # if multiple inputs to variable, sum them up
                     if len(in_ops_col) > 1:
-                        in_ops[var_name] = self._map_multiple_inputs(in_ops_col, scope=scope)
+                        in_ops[var_name] = self._map_multiple_inputs(in_ops_col, scope=scope,
+                                                                         taken=set(op_info['variables']) - {var_name})
                     else:
                         key, _ = in_ops_col.popitem()
                         in_ops[var_name] = (None, {var_name: key})
@@ -1599,7 +1600,7 @@ class CircuitIR(AbstractBaseIR):
         return v
 
     @staticmethod
-    def _map_multiple_inputs(inputs: dict, scope: str) -> tuple:
+    def _map_multiple_inputs(inputs: dict, scope: str, taken: Iterable = ()) -> tuple:
         """Creates mapping between multiple input variables and a single output variable.
 
         Parameters
@@ -1632,6 +1633,10 @@ class CircuitIR(AbstractBaseIR):
                 in_var = key.split('/')[-1]
             inp, inputs_unique_tmp = get_unique_label(in_var, inputs_unique)
             inputs_unique.update(inputs_unique_tmp)
+            # the label is written into the operator's equations: it must not be the name of another variable of the operator
+            while inp in taken:
+                inp, inputs_unique_tmp = get_unique_label(in_var, inputs_unique)
+                inputs_unique.update(inputs_unique_tmp)
 
             # store input-related information
             new_input_vars.append(inp)
